@@ -9,11 +9,11 @@ import datetime
 from harness import core, scen, vcommon, world as W
 
 RULE = ("layout trees of depth 0-2 with inspection lists of length 0-3 per layout whose commands succeed / exit 1 / "
-        "exceed a 1 s limit, crossed with one injected earlier-stage failure at the root or in a sublayout: bad layout "
+        "exceed the time limit, crossed with one injected earlier-stage failure at the root or in a sublayout: bad layout "
         "signature, supplied key without signature, expiry, missing links, threshold not met, threshold disagreement, "
         "failing sublayout, violated step rule, unloadable link file. Non-trivial: at least one inspection exists "
         "somewhere in the tree; distinct by description.")
-ASSUMPTIONS = ["a helper process that sleeps 30 s stands for 'exceeds the time limit' (the sleeper sleeps 7 s: beyond the 3 s limit set when a scenario has one, below in-toto's 10 s default; 30 s limit otherwise)",
+ASSUMPTIONS = ["a helper process that sleeps stands for 'exceeds the time limit' (the sleeper sleeps 8.5 s: beyond the 5 s limit set when a scenario has one, below in-toto's 10 s default; 60 s limit otherwise, so that an overloaded machine does not turn an ordinary inspection into a time-out)",
                "the append-only log is the only side effect observed"]
 FAILS = [None, None, None, "layout_sig", "unsigned_key", "expired", "missing_links", "threshold_unmet",
          "threshold_disagree", "step_rule", "unloadable_link"]
@@ -143,7 +143,7 @@ def timeout_for(ch):
     """Time limit for inspections: short only when some inspection is meant to exceed it, and
     even then with a wide margin over interpreter start-up under load."""
     sleeper = any(x["action"] == "sleep" for n, _p in scen.walk(ch) for x in n.inspections)
-    return 3 if sleeper else 30
+    return 5 if sleeper else 60
 
 
 def one_case(rng, res):
